@@ -89,6 +89,7 @@ class Builder:
         self.by_id = funcs_by_id        # (unit, id) -> Func (closures, constructors)
         self.statics = statics or {}
         self.ctors = {}                 # class qname -> Func of the constructor to inline
+        self.raw_uses = []              # (func, site, name, node class): an Expr handle embedded without clone()
 
     # values: Rat | ("bool", atom, negated) | ("closure", Func) | ("obj", cls, fields)
     def run(self, f, env, facts, this=None, depth=0):
@@ -266,6 +267,15 @@ class Builder:
                 for f2, b in self.ev(f, bo[2], env, f1, this, depth):
                     res.append((f2, a + b if bo[0] == "+" else a - b if bo[0] == "-" else a * b if bo[0] == "*" else a / b))
             return res
+        if k == "ConditionalOperator":
+            c, a, b = f.kids(s)[:3]
+            res = []
+            for pol, arm in ((True, a), (False, b)):
+                f2 = self.branch(f, c, pol, env, facts)
+                if f2 is None:
+                    continue
+                res += self.ev(f, arm, env, f2, this, depth)
+            return res
         if k == "LambdaExpr":
             g = self.by_id.get((f.unit, n.get("lambdaOp")))
             if g is None:
@@ -358,6 +368,9 @@ class Builder:
             alts = new
         out = []
         for fx, vs in alts:
+            for v in vs:
+                if isinstance(v, tuple) and v and v[0] == "expr":
+                    self.raw_uses.append((f, site, v[1], cls))
             out.append((fx, self.node(cls, [self.coerce(v) for v in vs], f, site)))
         return out
 
